@@ -4,6 +4,7 @@
 (* PipelineTransport + lazyDnsConn + TraditionalDnsConn over simnet conns  *)
 (* and a gated dial function) checked against LazyPipe.tla.  Events:       *)
 (*   reset{q,l}   Call{c}   Dial{k}   DialRet{k,ok}   ConnWrite{c,k}       *)
+(*   ConnDie{k} (the harness made Read on connection k fail)               *)
 (*   Deliver{c}   ExchangeEnd{c,r,e}  (r = reply | err; e = refused | dial *)
 (*   | other)                                                              *)
 (* Silent: Attach*, DialPublish, EarlyAdmit, EarlyRefuse, EarlyFail,       *)
@@ -36,6 +37,7 @@ Logged ==
     \/ IsEvent("Dial") /\ \E s \in Slots : DialStart(s, Ev.k)
     \/ IsEvent("DialRet") /\ (\E s \in Slots : name[s] = Ev.k) /\
          IF Ev.ok THEN DialOk(SlotOf(Ev.k)) ELSE DialFail(SlotOf(Ev.k))
+    \/ IsEvent("ConnDie") /\ (\E s \in Slots : name[s] = Ev.k) /\ ConnDie(SlotOf(Ev.k))
     \/ IsEvent("ConnWrite") /\ Write(Ev.c) /\ name[at[Ev.c]] = Ev.k
     \/ IsEvent("Deliver") /\ Reply(Ev.c)
     \/ IsEvent("ExchangeEnd") /\ pc[Ev.c] = "done" /\ Return(Ev.c) /\
@@ -43,7 +45,7 @@ Logged ==
 
 Silent ==
     /\ l <= Len(Trace) /\ UNCHANGED l
-    /\ \/ \E c \in Callers : EarlyAdmit(c) \/ EarlyRefuse(c) \/ EarlyFail(c) \/ Finish(c) \/ Release(c)
+    /\ \/ \E c \in Callers : EarlyAdmit(c) \/ EarlyRefuse(c) \/ EarlyFail(c) \/ Finish(c) \/ Release(c) \/ DieRetry(c)
        \/ \E c \in Callers, s \in Slots : AttachEarly(c, s) \/ AttachReady(c, s) \/ AttachNew(c, s)
        \/ \E s \in Slots : DialPublish(s)
 
